@@ -74,6 +74,11 @@ func ergoDir(opts GlobalOptions) (string, error) {
 		}
 		start = wd
 	}
+	// Walking up to the parents only works on an absolute path.
+	start, err := filepath.Abs(start)
+	if err != nil {
+		return "", err
+	}
 	debugf(opts, "discover start=%s", start)
 	return resolveErgoDir(start)
 }
